@@ -10,6 +10,9 @@ mod gen;
 mod json;
 mod model;
 mod props_a;
+mod props_b;
+mod props_c;
+mod props_d;
 
 use std::io::Write;
 
@@ -19,17 +22,111 @@ use crate::core::*;
 use crate::gen::Profile;
 use crate::json::Json;
 
-fn gen_case(mode: &str, seed: u64, idx: u64, _tier: &str) -> Case {
+fn gen_case(mode: &str, seed: u64, idx: u64, tier: &str) -> Case {
     let mut r = gen::case_rng(seed, gen::salt(mode), idx);
+    let thorough = tier == "thorough";
+    let mut extra = Json::Null;
     let model = match mode {
         "c03" => {
             let mut p = Profile::mixed();
             p.max_space = 20_000.0;
             gen::gen_model(&mut r, &p)
         }
+        "c02" => {
+            if r.gen_bool(0.6) {
+                gen::gen_hard(&mut r)
+            } else {
+                gen::gen_model(&mut r, &Profile::mixed())
+            }
+        }
+        "c07" => {
+            extra = Json::obj([("k", Json::Int(if thorough { 40 } else { 8 }))]);
+            gen::gen_hard(&mut r)
+        }
+        "c08" => {
+            let extended = idx % 10 >= 7;
+            let nopts = if thorough { 144 } else { 6 };
+            extra = Json::obj([
+                ("nopts", Json::Int(nopts)),
+                ("first_opt", Json::Int(((idx * 6) % 144) as i128)),
+                ("regime", Json::str(if extended { "extended" } else { "canonical" })),
+            ]);
+            gen::gen_c08(&mut r, extended)
+        }
+        "c09" => {
+            let kinds = [
+                "lin_le", "lin_eq", "lin_ne", "bin_eq", "bin_ne", "bin_le", "bin_lt", "clause", "conjunction", "plus", "times", "div", "abs", "max",
+                "min", "elementd", "element", "all_different", "cumulativec", "bool_lin_le", "bool_lin_eq",
+            ];
+            let (m, st) = gen::gen_c09(&mut r, kinds[(idx % kinds.len() as u64) as usize]);
+            extra = Json::obj([("literal_state", Json::str(st))]);
+            m
+        }
+        "c17" => {
+            let mut p = Profile::mixed();
+            p.width = 3;
+            p.ncons = (1, 4);
+            if idx % 4 == 0 {
+                p.kinds.push(("element", 3));
+                p.kinds.push(("cumulative", 2));
+            }
+            gen::gen_model(&mut r, &p)
+        }
+        "c10" => {
+            let mut p = Profile::mixed();
+            p.ncons = (3, 8);
+            p.max_space = 6_000.0;
+            gen::gen_model(&mut r, &p)
+        }
+        "c11" => {
+            extra = Json::obj([("entry", Json::Int((idx % 4) as i128)), ("max_points", Json::Int(if thorough { 400 } else { 40 }))]);
+            let mut p = Profile::mixed();
+            p.max_space = 6_000.0;
+            if r.gen_bool(0.4) {
+                gen::gen_hard(&mut r)
+            } else {
+                gen::gen_model(&mut r, &p)
+            }
+        }
+        "c16" => {
+            let kinds = ["lin_le", "lin_eq", "lin_ne", "plus", "times", "div", "abs", "max", "min", "element", "bin_le", "bin_ne"];
+            gen::gen_big(&mut r, kinds[(idx % kinds.len() as u64) as usize])
+        }
+        "c06" => {
+            let optimise = idx % 5 >= 3;
+            extra = Json::obj([("proof", Json::str(["scaffold", "full", "hinted"][(idx % 3) as usize])), ("optimise", Json::Bool(optimise))]);
+            let mut m = gen::gen_hard(&mut r);
+            for _ in 0..300 {
+                let mut p = Profile::mixed();
+                p.max_space = 4_000.0;
+                p.ncons = (2, 6);
+                m = if r.gen_bool(0.5) { gen::gen_model(&mut r, &p) } else { gen::gen_hard(&mut r) };
+                if m.space() > 20_000.0 {
+                    continue;
+                }
+                let unsat = m.enumerate().is_empty();
+                if unsat != optimise {
+                    break;
+                }
+            }
+            m
+        }
+        "c19" => model::Model { vars: vec![], cons: vec![] },
+        "c18" => {
+            let pair = idx % 154;
+            extra = Json::obj([
+                ("vi", Json::Int((pair / 14) as i128)),
+                ("wi", Json::Int((pair % 14) as i128)),
+                ("shape", Json::Int(((idx / 154) % 5) as i128)),
+            ]);
+            let mut p = Profile::mixed();
+            p.sparse_p = 0.4;
+            p.width = 5;
+            gen::gen_model(&mut r, &p)
+        }
         _ => gen::gen_model(&mut r, &Profile::mixed()),
     };
-    Case { model, sub: r.gen(), extra: Json::Null }
+    Case { model, sub: r.gen(), extra }
 }
 
 fn run_case(mode: &str, case: &Case) -> Outcome {
@@ -40,6 +137,17 @@ fn run_case(mode: &str, case: &Case) -> Outcome {
         "c04" => props_a::run_c04(case),
         "c05" => props_a::run_c05(case),
         "c12" => props_a::run_c12(case),
+        "c07" => props_b::run_c07(case),
+        "c08" => props_b::run_c08(case),
+        "c09" => props_b::run_c09(case),
+        "c17" => props_b::run_c17(case),
+        "c10" => props_c::run_c10(case),
+        "c11" => props_c::run_c11(case),
+        "c16" => props_c::run_c16(case),
+        "c06" => props_d::run_c06(case),
+        "c19" => props_d::run_c19(case),
+        "c20" => props_d::run_c20(case),
+        "c18" => props_b::run_c18(case),
         m => panic!("unknown mode {m}"),
     }
 }
